@@ -270,7 +270,8 @@ def render(ents, st, owners=False):
             kind, pos = s["cont"]
             j = len(body) - len(lines) + (pos % len(lines))
             ln = body[j][2]
-            cuts = [k for k in range(len(ln)) if ln[k] == " " and ln[:k].strip()]
+            cuts = [k for k in range(len(ln)) if ln[k] == " " and ln[:k].strip()
+                    and ln[:k].count("'") % 2 == 0 and ln[:k].count('"') % 2 == 0]      # never inside a literal
             if kind == "token" and cuts:
                 k = cuts[pos % len(cuts)]
                 body[j][2] = ln[:k]
@@ -470,7 +471,8 @@ NOISE_KINDS = ("comment", "blank", "directive", "numbered_directive", "slash_com
 
 def flags(ents, st, kind, site):
     """facts about the rewritten site for the judge's trigger predicates (input facts only, nothing observed):
-    [entry has PIC, entry has USAGE, copybook has ODO, entry is spelled FILLER, noise line lies inside an entry]"""
+    [entry has PIC, entry has USAGE, copybook has ODO, entry is spelled FILLER, noise line lies inside an entry,
+     the entry's OCCURS clause is followed by another clause]"""
     idx = site[0] if isinstance(site, list) else site
     if kind == "lower" and site == "all":
         es = ents
@@ -482,8 +484,12 @@ def flags(ents, st, kind, site):
     if kind in NOISE_KINDS:
         own = render(ents, st, owners=True)
         inside = int(0 < site < len(own) and own[site - 1] == own[site])
+    followed = 0
+    if kind == "opt_key":
+        gs = [g[0] for g in clause_groups(ents[idx], st["e"][idx])]
+        followed = int("occurs" in gs and gs[-1] != "occurs")
     return [int(any(x["pic"] for x in es)), int(any(x["usage"] for x in es)), int(any(x["odo"] for x in ents)),
-            int(any(x["name"] is None for x in es)), inside]
+            int(any(x["name"] is None for x in es)), inside, followed]
 
 
 # ------------------------------------------------------------------------------------------------
@@ -683,6 +689,10 @@ def inputs(ctx):
             # original already broken over several lines, so that noise lines can fall inside an entry
             for i in sites(ents, st0, "rebreak"):
                 pre.append(["rebreak", i, 3 * rng.randint(0, 60)])
+            # ... and written with the OCCURS clause in front of the other clauses
+            for i in range(len(ents)):
+                if ents[i]["occurs"] and (ents[i]["pic"] or ents[i]["usage"]) and c % 4 == 1:
+                    pre.append(["order", [i, 1], 0])
         for kind, site, v in pre:
             st0 = apply(ents, st0, kind, site, v)
         for kind in META_KINDS_QUICK:
